@@ -1651,6 +1651,34 @@ fn stale_extras(leader: &Obs, follower: &Obs) -> Option<Vec<String>> {
             }
         }
     }
+    // a key removed on the leader while the follower was away and published again later: the follower's stale copy survived
+    // the install (the snapshot did not contain the key at that moment) and the later publishes were applied on top of it -
+    // same value, and the leader's history (newest first) followed by older entries only the follower has
+    let mut drop_records: Vec<String> = vec![];
+    for (k, lv) in leader.cfg.iter() {
+        if let (Some(lv), Some(Some(fv))) = (lv, f.cfg.get(k).cloned()) {
+            // (content and md5 are the later publishes'; type and description are kept from the stale copy when the later
+            // publishes do not name them)
+            if lv.0 != fv.0 || lv.1 != fv.1 {
+                continue;
+            }
+            let (lh, fh) = (leader.hist.get(k).cloned().unwrap_or_default(), f.hist.get(k).cloned().unwrap_or_default());
+            if fh.len() > lh.len() && !lh.is_empty() && fh[..lh.len()] == lh[..] && fh[lh.len()..].iter().all(|e| e.0 < lh.last().map(|x| x.0).unwrap_or(0)) {
+                extras.push(format!("older history entries {:?} of config {}", fh[lh.len()..].iter().map(|e| e.0).collect::<Vec<_>>(), k));
+                f.hist.insert(k.clone(), lh);
+                f.cfg.insert(k.clone(), Some(lv.clone()));
+                drop_records.push(k.clone());
+            }
+        }
+    }
+    let mut l2 = leader.clone();
+    if !drop_records.is_empty() {
+        // the raw records of those keys carry the history as well
+        let raw: Vec<Vec<u8>> = drop_records.iter().filter_map(|k| { let p: Vec<&str> = k.split('|').collect(); if p.len() == 3 { Some(rnacos::config::core::ConfigKey::new(p[2], p[1], p[0]).build_key().into_bytes()) } else { None } }).collect();
+        f.records.retain(|r| !(r.0 == "T_CONFIG" && raw.contains(&r.1)));
+        l2.records.retain(|r| !(r.0 == "T_CONFIG" && raw.contains(&r.1)));
+    }
+    let leader = &l2;
     f.ns.retain(|x| leader.ns.iter().any(|l| l.0 == x.0));
     // a user namespace removed on the leader whose tenant still holds configurations: the leader lists it as a weak
     // namespace (named after its id, no USER flag), the follower still as the user namespace it was (entries are "name#flags")
@@ -1665,6 +1693,8 @@ fn stale_extras(leader: &Obs, follower: &Obs) -> Option<Vec<String>> {
     }
     f.users.retain(|x| leader.users.iter().any(|l| l.0 == x.0));
     f.listing.retain(|x| leader.listing.contains(x));
+    // (MCP servers / tool definitions removed on the leader: their records are among the extras above)
+    f.mcp.retain(|x| leader.mcp.iter().any(|l| l.0 == x.0));
     if f == *leader && !extras.is_empty() {
         Some(extras)
     } else {
@@ -2185,6 +2215,10 @@ impl Check for C08 {
             cfg.third_node = true;
             cfg.leader_restart_before_connect = true;
             cfg.kill = true;
+            // (and in a quiet cluster, like the kill inside a transfer: with a client that keeps writing, the restarted
+            // leader's replication stream runs into the dependency's stuck-stream defects - follower one entry behind or
+            // far behind for good - which cannot be told apart from a product defect by evidence)
+            cfg.quiet = true;
         }
         let n = rng.range(cfg.base.node.snapshot_log_size + 5, 90);
         cfg.before = rng.range(0, 10) as usize;
